@@ -164,6 +164,29 @@ theorem right_secret_accepted_outgoing (s : State) (sender id secret : String) (
   obtain ⟨s', h⟩ := claimOutgoing_succeeds (secret := secret) hs hg ho ht hdir hid hsec
   exact ⟨s', by simp only [step, hg, Option.map_some, Option.getD_some, hlk]; exact h⟩
 
+/-- the monitor clause `claimLiveOk` (a well-formed claim with the bound preimage on an open,
+fundable contract is accepted) holds on every model step: the handler has no other way to reject -/
+theorem claimLive_sound (s : State) (op : Op) :
+    claimLiveOk s op (match step s op with | .ok _ => true | .error _ => false) = true := by
+  cases op with
+  | claim sender id secret =>
+    simp only [claimLiveOk, step]
+    cases hg : AMap.get? s.htlcs id with
+    | none => simp
+    | some c =>
+      simp only [Option.map_some, Option.getD_some]
+      cases hcf : claimFunds s c with
+      | error e => simp
+      | ok s1 =>
+        by_cases h1 : (c.state == .open && hexOk64 id && hexOk64 secret &&
+            genLock secret c.timestamp == c.hashLock) = true
+        · simp only [Bool.and_eq_true, beq_iff_eq] at h1
+          obtain ⟨⟨⟨ho, hid⟩, hsec⟩, hlk⟩ := h1
+          simp [stepClaim, hid, hsec, hg, ho, hlk, hcf]
+        · simp only [Bool.not_eq_true] at h1
+          simp only [h1, Bool.false_and, Bool.not_false, Bool.or_true]
+  | _ => simp [claimLiveOk]
+
 /-! ### (ii) what moves, and only then: exact bank deltas -/
 
 /-- an accepted claim: the contract was open, the secret hashes (with the contract's timestamp)
